@@ -3,6 +3,7 @@
 package peer
 
 import (
+	"fmt"
 	"net"
 
 	"github.com/bitcoin-sv/block-headers-service/config"
@@ -61,4 +62,21 @@ func (d *VerifHeadersDriver) Close() {
 		_ = d.P.conn.Close()
 	}
 	_ = d.far.Close()
+}
+
+// VerifDump renders the private sync state of an experimental peer (for canonical state keys).
+func VerifDump(p *Peer) string {
+	cp := int32(-2)
+	if p.checkpoint != nil {
+		cp = p.checkpoint.Height()
+	}
+	h, lh := p.getLatestStats()
+	return fmt.Sprintf("cp=%d sendHeaders=%v synced=%v latest=%d latestHashSet=%v quitting=%v", cp, p.sendHeadersMode, p.syncedCheckpoints, h, lh != nil, p.quitting)
+}
+
+// VerifQuiesce disconnects the peer if it is still running.
+func VerifQuiesce(p *Peer) {
+	if !p.quitting {
+		p.Disconnect()
+	}
 }
